@@ -241,14 +241,14 @@ def impl_set(xp, v, o):
 def run(ctx):
     rng = ctx.rng("histories")
     cases = []
-    for _ in range(ctx.budget(400, 10000)):
+    for _ in range(ctx.budget(1200, 10000)):
         t = X.gen_plain(rng, rng.choice([2, 3, 4]), "d")
         cases.append({"tree": t, "mode": rng.choice(["n0", "wrap"]), "ops": gen_history(rng, t, rng.randrange(1, 9))})
     ctx.evaluate("history", cases, check_history, in_known=in_known, nontrivial=lambda c: len(c["ops"]) > 1)
     # hidden lists: one write through index 0 / -1 / last() on a single value (under a key or an element of a list)
     rng3 = ctx.rng("hidden")
     hcases = []
-    for _ in range(ctx.budget(300, 8000)):
+    for _ in range(ctx.budget(900, 8000)):
         t = X.gen_plain(rng3, rng3.choice([2, 3]), "d")
         singles = [p for p, v in X.positions(t) if p and not isinstance(v, list)]
         if not singles:
@@ -261,7 +261,7 @@ def run(ctx):
                  nontrivial=lambda c: isinstance(c["ops"][0]["pos"][-1], int) or isinstance(X.get_at(c["tree"], c["ops"][0]["pos"]), dict))
     rk = []
     rng2 = ctx.rng("rootkeys")
-    for _ in range(ctx.budget(300, 5000)):
+    for _ in range(ctx.budget(900, 5000)):
         ks = rng2.sample(ODD_ROOT_KEYS + ["id", "Amount", "note", "k"], rng2.randrange(1, 6))
         tree = {k: rng2.choice(["v", 1, None]) for k in ks}
         writes = [[rng2.choice(ks), rng2.choice(["W", 2, {"z": 1}])] for _ in range(rng2.randrange(1, 4))]
